@@ -347,14 +347,17 @@ namespace occa {
 
       if (io::exists(dependency)) {
         // Check whether the dependency changed
+        // Tie each content hash to its file: plain XOR of the content hashes
+        // cancels for files with equal contents and is blind to swapped contents
         hash_t newDependencyHash = hashFile(dependency);
-        newKernelHash ^= newDependencyHash;
+        newKernelHash ^= occa::hash(dependency + ":" + newDependencyHash.getFullString());
 
         if (dependencyHash != newDependencyHash) {
           foundDependencyChanges = true;
         }
       } else {
         // Dependency is missing so something changed
+        newKernelHash ^= occa::hash(dependency + ":missing");
         foundDependencyChanges = true;
       }
 
